@@ -29,7 +29,7 @@ def run(prop, tier, seed, replay=None):
     if mc.violated or mc.rc != 0:
         rep.machinery_failure(f"MC_Dep: {mc.violated or mc.rc}")
     T = valuniv.types(big=thorough)
-    jobs = [{"id": f"C11-{j}", "t": t} for j, t in enumerate(T)]
+    jobs = [{"id": f"C11-{j}", "t": t, "k3pos": j + seed} for j, t in enumerate(T)]
     res = pool.run(workers.value_cases, jobs, chunks_per_proc=2)
     for c in res:
         if "skip" in c:
